@@ -31,11 +31,12 @@ func main() {
 	}
 	defer drv.Close()
 	h := &harness{
-		drv:  drv,
-		tieC: res.Tie("coll-seq", "K1", "random call sequences on a Collection (ids from {'',a,b,c,A,B}+generated, every subset of the write/read options, id interceptors, fixed/ticking clock, scripted rng incl. forced collisions/exhaustion); compared per call: result, code, bus events, callbacks, contents with stored times, clock. distinct = distinct (config, call, contents-before)"),
-		tieV: res.Tie("value-seq", "K1", "random call sequences on a Value (with/without initial value, writable fields, all write options); compared per call as above"),
-		tieS: res.Tie("small-scope", "K2", "ALL call sequences up to the stated length over ids {a,b}, values {1//-,2/x/-}, ops add/upd/upd+create/del/del+allow-missing/get/list; distinct = distinct sequences"),
-		mon:  res.Monitor("reference-map", "every call of every tie run is checked against a plain Go register/map oracle (fieldwise merge) and the property's clauses: failed call => contents and clock-free state unchanged and no bus event; List = sorted filtered contents; generated id non-empty, unused, reported once, usable"),
+		cover: newPairCover(),
+		drv:   drv,
+		tieC:  res.Tie("coll-seq", "K1", "random call sequences on a Collection (ids from {'',a,b,c,A,B}+generated, every subset of the write/read options, id interceptors, fixed/ticking clock, scripted rng incl. forced collisions/exhaustion); compared per call: result, code, bus events, callbacks, contents with stored times, clock. distinct = distinct (config, call, contents-before)"),
+		tieV:  res.Tie("value-seq", "K1", "random call sequences on a Value (with/without initial value, writable fields, all write options); compared per call as above"),
+		tieS:  res.Tie("small-scope", "K2", "ALL call sequences up to the stated length over ids {a,b}, values {1//-,2/x/-}, ops add/upd/upd+create/del/del+allow-missing/get/list; distinct = distinct sequences"),
+		mon:   res.Monitor("reference-map", "every call of every tie run is checked against a plain Go register/map oracle (fieldwise merge) and the property's clauses: failed call => contents and clock-free state unchanged and no bus event; List = sorted filtered contents; generated id non-empty, unused, reported once, usable"),
 	}
 	r := lib.NewRand(f.Seed)
 	h.smallScope(f.N(3, 4))
@@ -54,12 +55,16 @@ func main() {
 	}
 	h.tieS.Exhaustive = true
 	res.Extra["ops_total"] = h.ops
+	pw := h.cover.report([]string{"upd", "add", "del", "vset", "get", "list", "vget"}, []string{"rm", "inc"})
+	res.Extra["pairwise_option_coverage"] = pw
+	h.tieC.Count(fmt.Sprintf("pairwise option combinations covered: %v of %v", pw["covered"], pw["combinations"]))
 	if err := res.Write(f.Out); err != nil {
 		lib.Fatal(err)
 	}
 }
 
 type harness struct {
+	cover            *pairCover
 	drv              *lib.Driver
 	tieC, tieV, tieS *lib.Tie
 	mon              *lib.Monitor
@@ -133,6 +138,16 @@ func (h *harness) runScript(s Script, tie *lib.Tie) {
 		}
 		tie.Record(key, tie != h.tieS || i == len(s.Ops)-1, map[string]any{"script": prefix(s, i+1)}, model[i], code[i])
 		tie.Count("op:" + op.Op)
+		h.cover.call(op.Op, op)
+		if op.isWrite() {
+			// the reader of a write in this tie: the next read call of the script, if any
+			for _, rd := range s.Ops[i+1:] {
+				if !rd.isWrite() {
+					h.cover.cross(op.Op, op, []string{"rm", "inc"}, rd)
+					break
+				}
+			}
+		}
 		tie.Count("err:" + part(code[i], "err"))
 		for _, t := range op.Opts {
 			tie.Count("opt:" + strings.SplitN(t, "=", 2)[0])
